@@ -271,7 +271,18 @@ pub fn perturb_layout(t: &mut Tape, prog: &mut Prog) -> String {
         return "none".into();
     }
     let (mi, ii) = sites[t.below(sites.len() as u64) as usize];
-    let kind = t.below(9);
+    let kind = t.below(10);
+    if kind == 9 {
+        // a zero-length array as last member, and whatever made the size a multiple of the alignment gone
+        let Item::Type(td) = &mut prog.mods[mi].items[ii] else { unreachable!() };
+        while td.fields.last().map(|f| f.name == "_" && matches!(f.ty, Ty::Unk(_))).unwrap_or(false) {
+            td.fields.pop();
+        }
+        td.size = None;
+        let el = *t.pick(&["u8", "u16", "u32", "u64"]);
+        td.fields.push(Field::new(&format!("tail{}", t.below(1000)), Ty::n(el).arr(0)));
+        return "zero-length-tail".into();
+    }
     if kind == 8 {
         // a by-value member of a zero-sized, aligned type somewhere in the middle
         let zname = format!("Zs{}", t.below(1000));
